@@ -205,7 +205,7 @@ def units(tier, seed):
     out = []
     for (D, P) in ([(4, 2)] if tier == 'quick' else [(8, 2), (11, 1), (5, 3)]):
         for op in O.catalogue():
-            if 'c14only' in op.tags:
+            if 'c14only' in op.tags or 'c10only' in op.tags:
                 continue
             out.append(Unit('C12/%s/D%d,P%d' % (op.name, D, P), 'symx.props.c12', 'h_op',
                             {'opname': op.name, 'D': D, 'P': P}, {'property': PROP, 'path_budget': 300}))
